@@ -167,7 +167,10 @@ func parse(ctx context.Context, fileDesc *desc.FileDescriptor, mode meta.ParseSe
 }
 
 func parseMessage(ctx context.Context, msgDesc *desc.MessageDescriptor, cache compilingCache, recursionDepth int, opts Options, parseTarget ParseTarget) (*TypeDescriptor, error) {
-	if tycache, ok := cache[msgDesc.GetName()]; ok && tycache.parseTarget == parseTarget {
+	// the cache is keyed by the fully-qualified name: message types of different scopes or packages may
+	// share a simple name (A.M and B.M)
+	cacheKey := msgDesc.GetFullyQualifiedName()
+	if tycache, ok := cache[cacheKey]; ok && tycache.parseTarget == parseTarget {
 		return tycache.desc, nil
 	}
 
@@ -186,7 +189,7 @@ func parseMessage(ctx context.Context, msgDesc *desc.MessageDescriptor, cache co
 		msg:  md,
 	}
 
-	cache[ty.name] = &compilingInstance{
+	cache[cacheKey] = &compilingInstance{
 		desc:        ty,
 		opts:        opts,
 		parseTarget: parseTarget,
